@@ -60,6 +60,8 @@ def run_shards(fn, items, deadline, workers=None, into=None, ordered=False, pers
                 raise HarnessError("shard failed: %s" % (val,))
             total.merge(val)
     except BaseException:
+        # workers may be blocked writing large results nobody reads any more: kill them before terminate()
+        _kill_workers(pool)
         if persistent:
             _drop_pool()
         raise
@@ -68,6 +70,14 @@ def run_shards(fn, items, deadline, workers=None, into=None, ordered=False, pers
             pool.terminate()
             pool.join()
     return total
+
+
+def _kill_workers(pool):
+    for proc in list(getattr(pool, "_pool", []) or []):
+        try:
+            proc.kill()
+        except Exception:
+            pass
 
 
 _POOL = None
